@@ -2,19 +2,27 @@
 the schedule value of the global batch independent of the worker count.
 
 Proof side: coq/C15 (Base/BaseLemmas/Sched/Spec/Check/Proofs/PropertyC15 hand-written, gen/Strength.v regenerated
-from KD_REPO's sources by harness/translate_strength.py on every run; the proofs mention no generated name below the
-`leaf` level and are re-checked against the regenerated text).
+from KD_REPO's sources by harness/translate_strength.py on every run - model AND the per-class spec predicates wf / dom /
+ordered / weakest; the proofs mention no generated name below the `leaf` level and are re-checked against the
+regenerated text).
 Dynamic side (this module):
-  * scale cases: a real transform (every class that defines _scale_strength, aliases, KDComposeTransform trees with
-    opaque KDTransforms and foreign callables, the ready-made BYOL pipelines) is constructed, its parameters are
-    read back (a) through the translator's schema -> Coq term, (b) through the hand-written registry OBSERVE below ->
-    Python oracle; then scale_strength(f) for a factor sequence (0, 1, repeated, non-monotone, random), reading the
-    parameters back after every call; for single leaves an injected spy generator records the (low, high) arguments
-    of every rng.uniform call of one __call__ (= the ranges really sampled from).
+  * scale cases: a real transform (every class that defines _scale_strength, aliases, trees of the containers
+    KDComposeTransform / KDTransformChoice / KDRandomApply / PatchwiseTransform with opaque KDTransforms and foreign
+    callables, the ready-made BYOL pipelines) is constructed, its parameters are read back (a) through the translator's
+    schema -> Coq term, (b) through the hand-written registry OBSERVE below -> Python oracle; then scale_strength(f) for
+    a factor sequence (0, 1, repeated, non-monotone, random), reading the parameters back after every call.
+    BEHAVIOUR after every call: an injected spy generator records every rng.uniform / rng.normal call (arguments and
+    scalar results); the transform is called several times and what it records in ctx and returns is compared with a
+    FRESH instance (same constructor arguments) that only saw the last factor, same generator seed, same input; for the
+    MagnitudeSampler users the sampled magnitude is recomputed from the scaled parameters and the recorded draw.
   * sched cases: KDScheduledTransform (optionally inside a KDComposeTransform) is copied once per simulated worker,
     initialised through the public worker_init_fn with get_worker_info patched (as the unit test does), fed global
     batches round-robin; ctx strength and the wrapped transform's parameters are recorded per global sample.  With
-    "loader" a real torch DataLoader with that many worker processes produces the same record.
+    "loader" a real torch DataLoader with that many worker processes produces the same record.  The announced length
+    (epochs / updates / samples) is also counted with torch's own DistributedSampler / BatchSampler.
+  * multi_iter cases: a real DataLoader iterated once per epoch (persistent workers or not): inside the claim only for
+    persistent workers with num_workers | batches per epoch; the other two regimes are a recorded finding.
+  * translator_selftest: synthetic _scale_strength bodies with unsupported shapes must be refused by the translator.
 """
 import copy
 import math
@@ -36,10 +44,10 @@ COQ_SAMPLES = 72
 TRUSTED = [
     "harness/translate_strength.py (ast translator, fail closed): its output gen/Strength.v is validated on every run "
     "by comparing the real classes' attributes after every scale_strength call with the generated *_scale over exact "
-    "fractions (Base.v approxQ: 1e-12 relative, ints exactly)",
+    "fractions (Base.v approxQ: 8 ulp = 8 * 2^-53 of (1 + |a| + |b|), ints exactly)",
     "binary64 vs rationals: the model computes over Q with the exact value of every float; `lb + (ub - lb) * 1.0` may "
-    "differ from ub by an ulp (inside the tolerance); int(...) of KDSolarize is compared exactly, cases whose exact "
-    "pre-truncation value is within 1e-9 of an integer it does not hit are only checked by the Python oracle",
+    "differ from ub by an ulp (inside the explicit 8-ulp slack); int(...) of KDSolarize is compared exactly, cases whose "
+    "exact pre-truncation value is within 2^-43 of an integer it does not hit are only checked by the Python oracle",
     "coq/C15/Sched.v: hand model of KDScheduledTransform._worker_init_fn / __call__ (the schedule object is an opaque "
     "function; its values are asked from an independent copy of the schedule); tied to the code by the simulated "
     "workers and (thorough tier, 2 cases in quick) a real multi-process DataLoader",
@@ -47,28 +55,59 @@ TRUSTED = [
     "worker id of every batch is recorded and the strengths are compared with the schedule at the global batch)",
     "torchvision ColorJitter / GaussianBlur / RandomRotation argument normalisation produces lower bounds >= 0 and "
     "hue within [-0.5, 0.5] (Spec.v KDColorJitter_wf; evaluated on every real instance)",
-    "harness/c15.py: OBSERVE registry (which attributes are the sampled ranges and their identity values), spy "
-    "generator, canonicalisation of floats into exact fractions",
+    "harness/c15.py: OBSERVE registry (which attributes are the sampled ranges and their identity values; which "
+    "classes are containers), spy generator, canonicalisation of floats into exact fractions",
+    "harness/translate_strength.py SPEC table: weakest value of every scaled field, the sampled ranges and the "
+    "constructor domain of each class with assignments of its own (spec knowledge, not derivable from the code; a "
+    "scaled field the table does not cover aborts the translation); classes that only forward inherit from members",
+    "behaviour comparison: a fresh instance built from the same constructor arguments and scaled once is the reference "
+    "for `depends only on the last factor` (exact equality of ctx records and outputs under the same generator seed)",
 ]
 ASSUMPTIONS = [
     "factors in [0, 1] (the public scale_strength asserts this)",
-    "full batches, one DataLoader iterator, batches dealt to workers round-robin; every worker starts from a copy of "
-    "the transform with sample_counter = 0 and worker_init_fn has been called (n_batches known)",
-    "compositions are trees of KDComposeTransform (and its subclasses) over scaling leaves, non-scaling KDTransforms "
-    "and foreign callables; KDRandomApply / KDTransformChoice / KDScheduledTransform do not forward scale_strength "
-    "and count as non-scaling (Opaque)",
+    "full batches, ONE DataLoader iterator spanning the announced length, batches dealt to workers round-robin; every "
+    "worker starts from a copy of the transform with sample_counter = 0 and worker_init_fn has been called (n_batches "
+    "known).  Several iterators (one per epoch) are inside the claim only with persistent workers and num_workers "
+    "dividing the batches per epoch; otherwise the schedule restarts / mis-aligns: finding "
+    "fixes/C15_multi_iterator_epochs.txt, reproduced by corpus/C15/known_multi_iterator_*.json",
+    "per-rank dataset length = dataset_len // world_size (what kappadata's own samplers yield: SamplerBase.__len__ cuts "
+    "the trailing samples)",
+    "compositions are trees of the containers KDComposeTransform (and its subclasses), KDTransformChoice, KDRandomApply, "
+    "PatchwiseTransform over scaling leaves, non-scaling KDTransforms and foreign callables (model = the code with "
+    "fixes/C15_{random_apply,transform_choice,patchwise,three_augment}_scale.patch applied); KDScheduledTransform does "
+    "not forward an OUTER scale_strength to the transform it schedules (its own schedule governs) and counts as Opaque",
     "MagnitudeSampler with magnitude_std = inf (uniform mode): magnitude_std is never read by sampling; its value "
     "(inf, or nan after factor 0) is not part of the claim and is shipped as 0",
     "KDGaussianBlur* have no identity setting: the weakest setting is the constant sigma = sigma_lb",
+    "ranges_stay_ordered: constructor arguments in torchvision's domain (tree_wf) and constructed ranges ordered "
+    "(tree_dom: og_lb <= og_ub, magnitude_min <= magnitude <= magnitude_max, sigma_lb <= sigma_ub); both are evaluated "
+    "on every real instance",
 ]
 ALLOWED_AXIOMS = []
-RULE = ("scale: every scaling class x 2-4 constructor-argument sets as a leaf (with rng.uniform spy), random "
-        "KDComposeTransform trees (depth <= 3, opaque / foreign members, BYOL presets), factor sequences of length 2-8 "
-        "from {0, 1, 0.5, 0.1, 1e-9, 1-2^-53, random}, repeated and non-monotone, (almost always) containing 0 and 1; "
-        "sched: W in 1..5, B in 1..5, n_batches announced via updates / samples / epochs, custom / linear / cosine "
-        "schedules, wrapped leaf or compose, optionally nested in a compose, 1..n_batches*B samples dealt round-robin; "
-        "non-trivial = at least one scaling leaf and one factor strictly between 0 and 1 (scale) / at least two "
-        "workers or two batches (sched); distinct by (tree signature, factor pattern) / (W, B, init kind, wrapped)")
+KNOWN_FINDINGS_PROPOSED = [
+    {"property": "C15", "match": {"kind": "multi_iter", "regime": "nonpersistent"},
+     "what": "KDScheduledTransform with worker_init_fn(epochs=E, ...) and one DataLoader iterator per epoch, "
+             "persistent_workers=False: every iterator forks workers from the main-process copy whose sample_counter is 0, "
+             "the schedule restarts at batch 0 every epoch (W=2, B=2, 3 batches/epoch, E=2: epoch 1 gets 0.0, 0.2, 0.4 "
+             "instead of 0.6, 0.8, 1.0); not repaired: needs new API (fixes/C15_multi_iterator_epochs.txt)"},
+    {"property": "C15", "match": {"kind": "multi_iter", "regime": "persistent_misaligned"},
+     "what": "KDScheduledTransform with one DataLoader iterator per epoch, persistent_workers=True and num_workers not "
+             "dividing the batches per epoch: torch restarts the round-robin at worker 0, local batch * W + rank is no "
+             "longer the global batch (W=2, 3 batches/epoch: epoch 1 starts with 0.8 instead of 0.6, then the schedule "
+             "asserts step < total_steps); not repaired (fixes/C15_multi_iterator_epochs.txt)"},
+]
+RULE = ("scale: every scaling class x 3 constructor-argument sets as a leaf (spy on rng.uniform / rng.normal; magnitude "
+        "samplers in const / normal / uniform mode), random container trees (depth <= 3; KDComposeTransform, "
+        "KDTransformChoice, KDRandomApply, PatchwiseTransform; opaque / foreign members, BYOL presets), factor sequences "
+        "of length 2-8 from {0, 1, 0.5, 0.1, 1e-9, 1-2^-53, random}, repeated and non-monotone, (almost always) "
+        "containing 0 and 1; after EVERY factor the instance is called 4-6 times and compared with a fresh instance that "
+        "saw only that factor; sched: W in 1..5, B in 1..5, n_batches announced via updates / samples (any remainder) / "
+        "epochs (1-5 epochs, world size 1-4, drop_last on/off, per-rank length with any remainder mod B, dataset length "
+        "with any remainder mod world size), custom / linear / cosine schedules, wrapped leaf or tree, optionally nested "
+        "in a compose, 1..n_batches*B samples dealt round-robin; real DataLoader worker processes for 2 (quick) / 16 "
+        "cases and for the multi-iterator cases; non-trivial = at least one scaling leaf and one factor strictly between "
+        "0 and 1 (scale) / at least two workers or two batches (sched); distinct by (tree signature, factor pattern) / "
+        "(W, B, announced length, wrapped)")
 
 _SCHEMA = None
 
@@ -124,7 +163,7 @@ def _sigma(rng):
 
 def _mag_kwargs(rng, prefix="magnitude", scale=1.0, allow_inf=True):
     mag = _r(rng, 0, 1) * scale
-    mode = rng.choice(["const", "normal", "inf"] if allow_inf else ["const", "normal"])
+    mode = rng.choice(["const", "normal", "normal", "inf"] if allow_inf else ["const", "normal", "normal"])
     std = {"const": 0.0, "normal": _r(rng, 0.05, 0.6) * scale, "inf": "inf"}[mode]
     mn = round(mag * rng.choice([0, 0, 0.5, 1.0]), 4)
     mx = round(mag + (scale - mag) * rng.choice([0, 1, 1, 0.5]), 4) if mag <= scale else mag
@@ -158,6 +197,7 @@ REG = {
     "KDAdditiveUniformNoise": lambda rng: _mag_kwargs(rng),
     "KDThreshold": lambda rng: _mag_kwargs(rng, "threshold", allow_inf=False),
     "KDRandomThreshold": lambda rng: {**_mag_kwargs(rng, "threshold", allow_inf=False), "p": _p(rng)},
+    "KDThreeAugment": lambda rng: {"threshold": rng.choice([128, 0, 256, rng.randint(0, 256)]), "sigma": _sigma(rng)},
     "KDRandAugment": lambda rng: {"num_ops": 2, "fill_color": [124, 116, 104], "interpolation": "bilinear",
                                   **_mag_kwargs(rng, "magnitude", scale=10.0, allow_inf=False)},
     "KDRandAugmentCustom": lambda rng: {"num_ops": 2, "fill_color": [124, 116, 104], "interpolation": "bicubic",
@@ -168,7 +208,11 @@ FLOAT_OK = ["KDColorJitter", "KDRandomColorJitter", "KDGaussianBlurTV", "KDRando
             "KDRandomSolarize", "KDRandomGrayscale", "KDRandomRotation", "KDAdditiveGaussianNoise",
             "KDRandomAdditiveGaussianNoise", "KDAdditiveUniformNoise", "KDThreshold", "KDRandomThreshold"]
 PIL_OK = ["KDColorJitter", "KDRandomColorJitter", "KDGaussianBlurPIL", "KDRandomGaussianBlurPIL", "KDSolarize",
-          "KDRandomSolarize", "KDRandomGrayscale", "KDRandomRotation", "KDRandAugment", "KDRandAugmentCustom"]
+          "KDRandomSolarize", "KDRandomGrayscale", "KDRandomRotation", "KDRandAugment", "KDRandAugmentCustom",
+          "KDThreeAugment"]
+# containers: forward scale_strength to members of arbitrary class (spec key "k" = member specs)
+CONTAINERS = {"KDComposeTransform": "list", "KDTransformChoice": "list", "KDRandomApply": "one",
+              "PatchwiseTransform": "one"}
 PRESETS = ["BYOLTransform0", "BYOLTransform1"]
 
 
@@ -183,21 +227,34 @@ def leaf_spec(rng, cls, kind=None):
     return {"c": cls, "kw": kw}
 
 
-def tree_spec(rng, depth, kind):
+def tree_spec(rng, depth, kind, root="KDComposeTransform", patch_ok=True):
+    """patch_ok: False inside a PatchwiseTransform (its member sees 4x4 / 6x6 patches: no second patching)"""
     pool = FLOAT_OK if kind == "f" else PIL_OK
     n = rng.choice([1, 2, 2, 3, 4])
     ks = []
     for _ in range(n):
         u = rng.random()
-        if depth > 1 and u < 0.25:
-            ks.append(tree_spec(rng, depth - 1, kind))
-        elif u < 0.37:
+        if depth > 1 and u < 0.30:
+            v = rng.random()
+            if v < 0.45:
+                ks.append(tree_spec(rng, depth - 1, kind, patch_ok=patch_ok))
+            elif v < 0.62:
+                ks.append(tree_spec(rng, depth - 1, kind, root="KDTransformChoice", patch_ok=patch_ok))
+            elif v < 0.85 or kind != "f" or not patch_ok:
+                inner = (tree_spec(rng, depth - 1, kind, patch_ok=patch_ok) if rng.random() < 0.4
+                         else leaf_spec(rng, rng.choice(pool), kind))
+                ks.append({"c": "KDRandomApply", "p": rng.choice([1.0, 1.0, 0.5, _r(rng, 0, 1)]), "k": [inner]})
+            else:
+                inner = (tree_spec(rng, depth - 1, kind, patch_ok=False) if rng.random() < 0.4
+                         else leaf_spec(rng, rng.choice(pool), kind))
+                ks.append({"c": "PatchwiseTransform", "patch": rng.choice([4, 6]), "k": [inner]})
+        elif u < 0.40:
             ks.append({"c": "opaque", "p": _r(rng, 0, 1)})
-        elif u < 0.47:
+        elif u < 0.48:
             ks.append({"c": "foreign"})
         else:
             ks.append(leaf_spec(rng, rng.choice(pool), kind))
-    return {"c": "KDComposeTransform", "k": ks}
+    return {"c": root, "k": ks}
 
 
 SPECIAL_F = [0.0, 1.0, 0.5, 0.1, 0.25, 1e-9, 1.0 - 2.0 ** -53, 0.3, 0.7]
@@ -224,27 +281,28 @@ def scale_case(rng, spec, kind, probe):
             "xseed": rng.randrange(10 ** 6)}
 
 
-def sched_case(rng, big=False, loader=0):
+def sched_case(rng, big=False, loader=0, mode=None):
     W = loader or rng.choice([1, 2, 2, 3, 3, 4, 5] + ([7, 8] if big else []))
     B = rng.choice([1, 2, 2, 3, 4, 5] + ([8, 16] if big else []))
-    mode = rng.choice(["updates", "updates", "samples", "epochs"])
+    mode = mode or rng.choice(["updates", "samples", "epochs", "epochs"])
     nb_target = rng.randint(1, 12 if not big else 30)
     if mode == "updates":
         init = {"updates": nb_target}
-        nb = nb_target
     elif mode == "samples":
-        s = max(1, nb_target * B - rng.choice([0, 0, 1, B - 1]))
+        # any number of samples: multiples of B, one more, one less, anything in between
+        s = max(1, nb_target * B - rng.choice([0, 0, 1, B - 1, rng.randrange(B)]))
         init = {"samples": s}
-        nb = -(-s // B)
     else:
-        world = rng.choice([1, 1, 2])
-        epochs = rng.choice([1, 2, 3])
-        drop = rng.random() < 0.5
-        per = max(1, nb_target // epochs)
-        dl = (per * B + rng.choice([0, 0, 1, B - 1])) * world + rng.choice([0, world - 1])
-        init = {"epochs": epochs, "dataset_len": dl, "world_size": world, "drop_last": drop}
-        d = dl // world
-        nb = epochs * (d // B if drop else -(-d // B))
+        # dataset_len = world_size * per_rank + extra (extra < world_size is cut by the distributed samplers),
+        # per_rank = q * B + r with any remainder r: with drop_last the r samples are dropped EVERY epoch
+        world = rng.choice([1, 1, 2, 2, 3, 4] + ([8] if big else []))
+        epochs = rng.choice([1, 2, 2, 3, 3, 4, 5])
+        drop = rng.random() < 0.6
+        q = max(1, nb_target // epochs)
+        r = rng.choice([0, 1, B - 1, rng.randrange(B), rng.randrange(B)])
+        extra = rng.choice([0, world - 1, rng.randrange(world)])
+        init = {"epochs": epochs, "dataset_len": (q * B + r) * world + extra, "world_size": world, "drop_last": drop}
+    nb = expected_n_batches(init, B)
     if nb < 1:
         init, nb = {"updates": 3}, 3
     sk = rng.choice(["custom", "custom", "custom", "default", "linear", "cosine", "const"])
@@ -276,6 +334,8 @@ def gen_cases(rng, tier):
     out = []
     if S["errors"]:
         out.append({"kind": "translator", "errors": [list(e) for e in S["errors"]]})
+    # translator negative self-test: synthetic _scale_strength bodies with unsupported shapes must be refused
+    out.append({"kind": "translator_selftest"})
     reps = 3 if tier == "quick" else 12
     for cls in REG:
         for _ in range(reps):
@@ -288,22 +348,37 @@ def gen_cases(rng, tier):
         out.append(scale_case(rng, tree_spec(rng, rng.choice([1, 2, 2, 3]), kind), kind, probe=False))
     for _ in range(120 if tier == "quick" else 700):
         out.append(sched_case(rng, big=(tier != "quick")))
-    for _ in range(2 if tier == "quick" else 16):
-        out.append(sched_case(rng, loader=rng.choice([2, 2, 3])))
+    # real DataLoader worker processes: one iterator over the whole announced length (every way of announcing it) ...
+    modes = ["epochs", "updates", "samples", "epochs"]
+    for k in range(2 if tier == "quick" else 16):
+        out.append(sched_case(rng, loader=rng.choice([2, 2, 3]), mode=modes[k % 4]))
+    # ... and several iterators over persistent workers where that is inside the claim (num_workers | batches per epoch)
+    for _ in range(1 if tier == "quick" else 10):
+        out.append(multi_iter_case(rng, "persistent_aligned"))
     return out
+
+
+SEARCH_SEQS = [[1.0], [0.0], [0.5, 1.0], [0.5, 0.5], [0.3, 0.7, 0.3], [0.0, 1.0], [0.0, 0.5], [1.0, 0.0, 0.3],
+               [0.0, 0.5, 1.0, 0.25, 0.0], [1e-9, 1.0, 0.0, 1.0]]
 
 
 def search_cases(rng, tier):
     S = schema()
     named = {e[0] for e in S["errors"]}
+    # classes the translator could not translate first, then classes whose record contains such a class' record
+    # (a helper like MagnitudeSampler is named through its users), then the rest
     first = [c for c in REG if c in named] + [c for c in REG if c not in named]
-    seqs = [[1.0], [0.0], [0.5, 1.0], [0.5, 0.5], [0.3, 0.7, 0.3], [0.0, 0.5, 1.0, 0.25, 0.0]]
     for cls in first:
-        for _ in range(3):
-            kind = "f" if cls in FLOAT_OK else "pil"
+        for r in range(8):
+            kind = "f" if cls in FLOAT_OK and (cls not in PIL_OK or r % 2 == 0) else "pil"
             spec = leaf_spec(rng, cls, kind)
-            for fs in seqs:
-                yield {"kind": "scale", "spec": spec, "input": kind, "factors": list(fs), "probe": True, "xseed": 1}
+            for fs in SEARCH_SEQS:
+                yield {"kind": "scale", "spec": spec, "input": kind, "factors": list(fs), "probe": True, "xseed": 1 + r}
+            nested = {"c": "KDComposeTransform", "k": [{"c": "opaque", "p": 0.5},
+                                                       {"c": "KDComposeTransform", "k": [spec, {"c": "foreign"}]}]}
+            for fs in rng.sample(SEARCH_SEQS, 3):
+                yield {"kind": "scale", "spec": nested, "input": kind, "factors": list(fs), "probe": False,
+                       "xseed": 1 + r}
     for W in (1, 2, 3):
         for B in (1, 2, 3):
             c = sched_case(rng)
@@ -341,7 +416,7 @@ def shrink(case):
 
 
 def _shrink_spec(spec):
-    if spec["c"] != "KDComposeTransform":
+    if spec["c"] not in CONTAINERS:
         return
     ks = spec["k"]
     if len(ks) == 1:
@@ -351,13 +426,15 @@ def _shrink_spec(spec):
             yield {**spec, "k": ks[:i] + ks[i + 1:]}
     for i, k in enumerate(ks):
         for s in _shrink_spec(k):
+            if s["c"] == "foreign" and spec["c"] == "PatchwiseTransform":
+                continue       # PatchwiseTransform.set_rng needs a KDTransform member
             yield {**spec, "k": ks[:i] + [s] + ks[i + 1:]}
 
 
 # ---------------------------------------------------------------------------
 # building real objects
 # ---------------------------------------------------------------------------
-def _identity_callable(x):
+def _identity_callable(x, ctx=None):
     return x
 
 
@@ -389,6 +466,12 @@ def build(spec):
     if c == "KDComposeTransform":
         from kappadata.transforms.base.kd_compose_transform import KDComposeTransform
         return KDComposeTransform([build(k) for k in spec["k"]])
+    if c == "KDTransformChoice":
+        return _cls(c)([build(k) for k in spec["k"]])
+    if c == "KDRandomApply":
+        return _cls(c)(build(spec["k"][0]), p=spec["p"])
+    if c == "PatchwiseTransform":
+        return _cls(c)(patch_size=spec["patch"], transform=build(spec["k"][0]))
     if c == "foreign":
         return _identity_callable
     if c == "opaque":
@@ -458,7 +541,9 @@ def live_tree(t, S):
     if definer is KDTransform:
         return {"n": "Opaque"}
     if definer.__name__ in S["compose"]:
-        return {"n": "Compose", "k": [live_tree(c, S) for c in getattr(t, S["compose_field"])]}
+        d = S["compose"][definer.__name__]
+        v = getattr(t, d["field"])
+        return {"n": "Compose", "k": [live_tree(c, S) for c in (list(v) if d["arity"] == "list" else [v])]}
     if definer.__name__ in S["leaf"]:
         return {"n": "Leaf", "c": definer.__name__, "s": read_state(t, definer.__name__, S)}
     raise KeyError(f"{type(t).__name__}: scaling class {definer.__name__} was not translated")
@@ -495,9 +580,22 @@ def observe(t, path=""):
     b, c = [], []
     if not isinstance(t, KDTransform):
         return {"bounds": b, "const": c}
-    if isinstance(t, KDComposeTransform):
-        for i, m in enumerate(t.transforms):
+    members = None
+    if isinstance(t, KDComposeTransform) or n == "KDTransformChoice":
+        members = list(t.transforms)
+    elif n in ("KDRandomApply", "PatchwiseTransform"):
+        members = [t.transform]
+    if members is not None:
+        for i, m in enumerate(members):
             o = observe(m, f"{path}{i}.")
+            b += o["bounds"]
+            c += o["const"]
+        if n == "KDRandomApply":
+            c.append([path + "p", repr(t.p)])
+        return {"bounds": b, "const": c}
+    if n == "KDThreeAugment":
+        for a in ("solarize", "gaussian_blur"):
+            o = observe(getattr(t, a), path + a + ".")
             b += o["bounds"]
             c += o["const"]
         return {"bounds": b, "const": c}
@@ -535,11 +633,16 @@ def observe(t, path=""):
         for k, v in sorted(vars(t).items()):
             if isinstance(v, (int, float, str, tuple, bool)) or v is None:
                 c.append([path + n + "." + k, repr(v)])
+            for m in (v if isinstance(v, (list, tuple)) else [v]):
+                if isinstance(m, KDTransform) and type(m).supports_scale_strength():
+                    raise KeyError(f"{n}.{k} holds a transform that supports strength scaling, but the oracle registry "
+                                   f"does not know {n} as a composition")
     return {"bounds": b, "const": c}
 
 
-class UniformSpy:
-    """np.random.Generator stand-in that records the (low, high) arguments of uniform()"""
+class DrawSpy:
+    """np.random.Generator stand-in: records every uniform() / normal() call as [method, a, b, scalar result or None]
+    (uniform: low, high; normal: loc, scale); every other method goes to the wrapped generator unrecorded"""
 
     def __init__(self, seed):
         import numpy as np
@@ -547,11 +650,20 @@ class UniformSpy:
         self.calls = []
 
     def uniform(self, low=0.0, high=1.0, size=None):
-        self.calls.append([float(low), float(high)])
-        return self._g.uniform(low, high, size)
+        r = self._g.uniform(low, high, size)
+        self.calls.append(["uniform", float(low), float(high), float(r) if size is None else None])
+        return r
+
+    def normal(self, loc=0.0, scale=1.0, size=None):
+        r = self._g.normal(loc, scale, size)
+        self.calls.append(["normal", float(loc), float(scale), float(r) if size is None else None])
+        return r
 
     def __getattr__(self, name):
         return getattr(self._g, name)
+
+
+UniformSpy = DrawSpy
 
 
 def expected_uniform(t):
@@ -588,15 +700,104 @@ def run_impl(case):
     kind = case.get("kind")
     if kind == "translator":
         return {"skipped": "translator"}
+    if kind == "translator_selftest":
+        try:
+            return {"selftest": T.negative_selftest()}
+        except Exception as e:  # noqa
+            return {"harness_exception": f"{type(e).__name__}: {e}", "tb": traceback.format_exc()[-1200:]}
     try:
         if kind == "scale":
             return run_scale(case)
+        if kind == "multi_iter":
+            return run_multi_iter(case)
         return run_sched(case)
     except Exception as e:  # noqa
         return {"harness_exception": f"{type(e).__name__}: {e}", "tb": traceback.format_exc()[-1200:]}
 
 
+def _canon(v):
+    import numpy as np
+    import torch
+    if v is None or isinstance(v, (bool, int, float, str)):
+        return v
+    if isinstance(v, np.generic):
+        return v.item()
+    if torch.is_tensor(v) or isinstance(v, np.ndarray):
+        return v.tolist()
+    if isinstance(v, (list, tuple)):
+        return [_canon(x) for x in v]
+    if isinstance(v, dict):
+        return {str(k): _canon(x) for k, x in sorted(v.items(), key=lambda kv: str(kv[0]))}
+    return repr(v)
+
+
+def _digest(y):
+    import hashlib
+    import torch
+    if torch.is_tensor(y):
+        return "T%s:%s" % (list(y.shape), hashlib.sha1(y.detach().contiguous().numpy().tobytes()).hexdigest()[:16])
+    if hasattr(y, "tobytes") and hasattr(y, "mode"):
+        return "P%s%s:%s" % (y.mode, list(y.size), hashlib.sha1(y.tobytes()).hexdigest()[:16])
+    if isinstance(y, (list, tuple)):
+        return [_digest(e) for e in y]
+    return repr(y)
+
+
+def _fresh_input(x):
+    return x.clone() if hasattr(x, "clone") else x.copy()
+
+
+def behaviour(t, x, seed, n):
+    """what n consecutive calls of t on x do with a spy generator seeded `seed`: per call the recorded ctx and a
+    digest of the output (as one JSON string per call, so that nan == nan), and the spy's draw log"""
+    import json
+    spy = DrawSpy(seed)
+    t.set_rng(spy)
+    rows, marks = [], []
+    for _ in range(n):
+        ctx = {}
+        try:
+            y = t(_fresh_input(x), ctx=ctx)
+            rows.append(json.dumps([_canon(ctx), _digest(y)], sort_keys=True))
+        except Exception as e:  # noqa
+            rows.append(json.dumps(["raised", f"{type(e).__name__}: {e}"]))
+        marks.append(len(spy.calls))
+    return rows, spy.calls, marks
+
+
+_MAG_WRAPPERS = {"KDRandomAdditiveGaussianNoise": "noise", "KDRandomThreshold": "threshold"}
+_MAG_HOLDERS = ("KDAdditiveGaussianNoise", "KDAdditiveUniformNoise", "KDThreshold")
+
+
+def mag_probe(t):
+    """parameters of the magnitude sampler of a leaf as the sampling must see them (None: not such a leaf / the
+    wrapper may skip the call)"""
+    n = type(t).__name__
+    if n in _MAG_WRAPPERS:
+        if t.p != 1.0:
+            return None
+        t = getattr(t, _MAG_WRAPPERS[n])
+        n = type(t).__name__
+    if n not in _MAG_HOLDERS:
+        return None
+    ms = t.magnitude_sampler
+    og = float(ms.og_magnitude_std)
+    mode = "const" if og == 0.0 else "uniform" if og == float("inf") else "normal"
+    out = {"cls": n, "mode": mode, "mag": float(ms.magnitude), "min": float(ms.magnitude_min),
+           "max": float(ms.magnitude_max), "ctx_key": t.ctx_key if n != "KDThreshold" else None}
+    if mode == "normal":
+        out["std"] = float(ms.magnitude_std)
+    if n == "KDAdditiveGaussianNoise":
+        out["noise_std"] = float(t.std)
+    return out
+
+
+BEHAV_DRAWS_LEAF = 6
+BEHAV_DRAWS_TREE = 4
+
+
 def run_scale(case):
+    import json
     import numpy as np
     import torch
     np.random.seed(case["xseed"] % (2 ** 31))
@@ -609,6 +810,7 @@ def run_scale(case):
     if hasattr(t, "ctx_prefix") and case["spec"]["c"] in REG:
         obs["expected_init"] = expected_init(case["spec"])
     x = make_input(case["input"], case["xseed"])
+    n_draws = BEHAV_DRAWS_LEAF if case.get("probe") else BEHAV_DRAWS_TREE
     for i, f in enumerate(case["factors"]):
         st = {"f": f}
         try:
@@ -619,16 +821,30 @@ def run_scale(case):
             break
         st["obs"] = observe(t)
         st["tree"] = try_live_tree(t)
+        # behaviour: the instance that saw factors[:i+1] against a FRESH instance that only sees factors[i], same
+        # generator seed, same input; what is compared is what the calls record in ctx and what they return
+        seed = case["xseed"] + i
+        rows, calls, marks = behaviour(t, x, seed, n_draws)
+        if rows and json.loads(rows[0])[0] == "raised":
+            st["call_error"] = json.loads(rows[0])[1]
         if case.get("probe"):
-            want = expected_uniform(t)
-            spy = UniformSpy(case["xseed"] + i)
-            t.set_rng(spy)
-            try:
-                xx = x.clone() if hasattr(x, "clone") else x.copy()
-                t(xx, ctx={})
-                st["uniform"] = [spy.calls, want]
-            except Exception as e:  # noqa
-                st["call_error"] = f"{type(e).__name__}: {e}"
+            first = calls[:marks[0]] if marks else []
+            st["uniform"] = [[c[1:3] for c in first if c[0] == "uniform"], expected_uniform(t)]
+            mp = mag_probe(t)
+            if mp is not None and "call_error" not in st:
+                mp["calls"] = [[c for c in calls[(marks[j - 1] if j else 0):marks[j]]] for j in range(len(marks))]
+                mp["ctx"] = [json.loads(r)[0].get(mp["ctx_key"]) if mp["ctx_key"] else None for r in rows]
+                st["mag"] = mp
+        try:
+            fresh = build(case["spec"])
+            fresh.scale_strength(f)
+            fobs = observe(fresh)
+            frows, _, _ = behaviour(fresh, x, seed, n_draws)
+            diff = next(([j, a, b] for j, (a, b) in enumerate(zip(rows, frows)) if a != b), None)
+            st["fresh"] = {"draws": n_draws, "diff": diff,
+                           "bounds_equal": json.dumps(fobs["bounds"]) == json.dumps(st["obs"]["bounds"])}
+        except Exception as e:  # noqa
+            st["fresh"] = {"error": f"{type(e).__name__}: {e}"}
         obs["steps"].append(st)
     return obs
 
@@ -654,6 +870,10 @@ def expected_init(spec):
         out[pre + "sigma_ub"] = float(s[1] if isinstance(s, list) else s)
     elif c in ("KDSolarize", "KDRandomSolarize"):
         out[("solarize." if "Random" in c else "") + "threshold"] = kw["threshold"]
+    elif c == "KDThreeAugment":
+        out["solarize.threshold"] = kw["threshold"]
+        s = kw["sigma"]
+        out["gaussian_blur.sigma_ub"] = float(s[1] if isinstance(s, list) else s)
     elif c == "KDRandomGrayscale":
         out["p"] = float(kw["p"])
     elif c == "KDRandomRotation":
@@ -709,6 +929,128 @@ class _LoaderDataset:
 
 def _as_list(batch):
     return batch
+
+
+class _StrengthDataset:
+    def __init__(self, outer, n, xseed):
+        self.outer, self.n, self.xseed = outer, n, xseed
+
+    def __len__(self):
+        return self.n
+
+    def __getitem__(self, i):
+        from torch.utils.data import get_worker_info
+        ctx = {}
+        self.outer(make_input("f", self.xseed + i), ctx=ctx)
+        s = _find_sched(self.outer)
+        return [i, get_worker_info().id, ctx.get(s.ctx_key)]
+
+
+def multi_iter_regime(case):
+    if not case["persistent"]:
+        return "nonpersistent" if case["epochs"] > 1 else "single_pass"
+    if case["epochs"] == 1 or case["bpe"] % case["W"] == 0:
+        return "persistent_aligned"
+    return "persistent_misaligned"
+
+
+def multi_iter_case(rng, regime):
+    W = rng.choice([1, 2, 2, 3])
+    B = rng.choice([1, 2, 3])
+    epochs = rng.choice([2, 2, 3])
+    if regime == "persistent_aligned":
+        bpe = W * rng.choice([1, 2])
+    elif regime == "persistent_misaligned":
+        W = rng.choice([2, 3])
+        bpe = W * rng.choice([0, 1]) + rng.randint(1, W - 1)
+    else:
+        bpe = rng.randint(1, 4)
+    c = {"kind": "multi_iter", "W": W, "B": B, "bpe": bpe, "rem": rng.randrange(B), "epochs": epochs,
+         "persistent": regime != "nonpersistent", "schedule": None, "xseed": rng.randrange(10 ** 6)}
+    c["regime"] = multi_iter_regime(c)
+    return c
+
+
+def run_multi_iter(case):
+    """a real DataLoader with W worker processes, iterated `epochs` times (one iterator per epoch, the plain
+    `for epoch in range(E): for batch in loader:` loop), schedule length announced through epochs= ... drop_last=True"""
+    from functools import partial
+    from torch.utils.data import DataLoader
+    from kappadata.transforms.base.kd_scheduled_transform import KDScheduledTransform
+    if case["regime"] != multi_iter_regime(case):
+        raise ValueError("case key `regime` does not describe the case")
+    W, B, E = case["W"], case["B"], case["epochs"]
+    n = case["bpe"] * B + case["rem"]
+    inner = _cls("KDRandomGrayscale")(p=0.5)
+    outer = KDScheduledTransform(inner, schedule=_schedule_obj(case["schedule"]))
+    ds = _StrengthDataset(outer, n, case["xseed"])
+    wi = partial(outer.worker_init_fn, batch_size=B, dataset_len=n, world_size=1, drop_last=True, epochs=E)
+    obs = {"passes": [], "n_batches_expected": E * case["bpe"]}
+    loader = None
+    try:
+        loader = DataLoader(ds, batch_size=B, num_workers=W, worker_init_fn=wi, collate_fn=_as_list, shuffle=False,
+                            drop_last=True, persistent_workers=case["persistent"])
+        for _ in range(E):
+            rows = []
+            obs["passes"].append(rows)
+            for batch in loader:
+                rows.append(batch)
+    except Exception as e:  # noqa
+        obs["loader_error"] = f"{type(e).__name__}: {str(e)[-400:]}"
+    finally:
+        it = getattr(loader, "_iterator", None)
+        if it is not None:
+            try:
+                it._shutdown_workers()
+            except Exception:  # noqa
+                pass
+        loader = it = None
+    indep = _schedule_obj(case["schedule"])
+    if indep is None:
+        from kappaschedules import LinearIncreasingSchedule
+        indep = LinearIncreasingSchedule()
+    nb = E * case["bpe"]
+    obs["values"] = [float(indep.get_value(b, nb)) for b in range(nb)]
+    return obs
+
+
+def oracle_multi_iter(case, obs):
+    sig = (f"KDScheduledTransform in a DataLoader(num_workers={case['W']}, batch_size={case['B']}, drop_last=True, "
+           f"persistent_workers={case['persistent']}) over {case['bpe'] * case['B'] + case['rem']} samples, iterated "
+           f"{case['epochs']} times, worker_init_fn(epochs={case['epochs']}, ...)")
+    g = 0
+    for e, rows in enumerate(obs["passes"]):
+        for k, batch in enumerate(rows):
+            for i, wid, strength in batch:
+                if g >= len(obs["values"]):
+                    return f"{sig}: epoch {e} produced more batches than announced"
+                if strength != obs["values"][g]:
+                    return (f"{sig}: sample {i} of batch {k} of epoch {e} = global batch {g} of "
+                            f"{obs['n_batches_expected']} (worker {wid}) reports strength {strength!r}, the schedule's "
+                            f"value at batch {g} is {obs['values'][g]!r}")
+            g += 1
+    if "loader_error" in obs:
+        return f"{sig}: after {g} batches: {obs['loader_error']}"
+    if g != obs["n_batches_expected"]:
+        return f"{sig}: {g} batches produced, {obs['n_batches_expected']} announced"
+    return None
+
+
+def torch_n_batches(init, B):
+    """the announced training length in batches, counted with torch's own samplers instead of a formula: per-rank
+    index list of a DistributedSampler that cuts the tail (as KappaData's samplers do: SamplerBase.__len__), batches of
+    a BatchSampler over it, once per epoch; `samples`: batches needed to see that many samples"""
+    from torch.utils.data import BatchSampler, DistributedSampler, SequentialSampler
+    if "updates" in init:
+        return init["updates"]
+    if "samples" in init:
+        return len(list(BatchSampler(SequentialSampler(range(init["samples"])), B, False)))
+    per_rank = list(DistributedSampler(range(init["dataset_len"]), num_replicas=init["world_size"], rank=0,
+                                       shuffle=False, drop_last=True))
+    total = 0
+    for _ in range(init["epochs"]):
+        total += len(list(BatchSampler(SequentialSampler(per_rank), B, init["drop_last"])))
+    return total
 
 
 def run_sched(case):
@@ -777,6 +1119,7 @@ def run_sched(case):
                 break
             rows.append([i, r, ctx.get(s.ctx_key), observe(s.transform), try_live_tree(s.transform)])
     nb = obs["n_batches"]
+    obs["nb_torch"] = torch_n_batches(case["init"], B)
     try:
         indep = _schedule_obj(case["schedule"])
         if indep is None:
@@ -805,14 +1148,19 @@ def run_sched(case):
 # ---------------------------------------------------------------------------
 # independent Python statement of the property
 # ---------------------------------------------------------------------------
+# binary64 slack of the comparisons, in units in the last place (same constant as Base.v ulp_slack): every scaling
+# formula is at most three rounded operations, each with relative error <= 2^-53
+ULP_SLACK = 8 * 2.0 ** -53
+
+
 def _close(a, b):
     if isinstance(a, int) and isinstance(b, int):
         return a == b
-    return abs(a - b) <= 1e-12 * (1 + abs(a) + abs(b))
+    return abs(a - b) <= ULP_SLACK * (1 + abs(a) + abs(b))
 
 
 def _le(a, b):
-    return a <= b + 1e-12 * (1 + abs(a) + abs(b))
+    return a <= b + ULP_SLACK * (1 + abs(a) + abs(b))
 
 
 def oracle(case, obs):
@@ -821,10 +1169,23 @@ def oracle(case, obs):
     kind = case.get("kind")
     if kind == "translator":
         return None      # reported through the broken build; the search looks for the concrete failing input
+    if kind == "translator_selftest":
+        rows = obs.get("selftest") or []
+        if len(rows) < 20:
+            return f"translator self-test ran only {len(rows)} synthetic classes"
+        for name, expect, accepted, msg in rows:
+            if accepted and not expect:
+                return (f"translator self-test: the synthetic scaling method `{name}` has an unsupported shape but was "
+                        "translated (the translator no longer fails closed)")
+            if expect and not accepted:
+                return f"translator self-test: the supported synthetic scaling method `{name}` was refused: {msg}"
+        return None
     if "construct_error" in obs:
         return f"construction failed: {obs['construct_error']}"
     if kind == "scale":
         return oracle_scale(case, obs)
+    if kind == "multi_iter":
+        return oracle_multi_iter(case, obs)
     return oracle_sched(case, obs)
 
 
@@ -881,6 +1242,22 @@ def oracle_scale(case, obs):
             if calls != want:
                 return (f"{sig}: after scale_strength({f!r}) one call drew rng.uniform from {calls}, the scaled "
                         f"parameters say {want}")
+        if "mag" in st:
+            bad = oracle_mag(st["mag"])
+            if bad:
+                return f"{sig}: after factors {hist}: {bad}"
+        fr = st.get("fresh")
+        if fr is not None:
+            if "error" in fr:
+                return f"{sig}: constructing a second instance and scaling it by {f!r} raised {fr['error']}"
+            if not fr["bounds_equal"]:
+                return (f"{sig}: after factors {hist} the parameters differ from those of a freshly constructed "
+                        f"instance scaled by {f!r} only: the result depends on earlier factors")
+            if fr["diff"] is not None:
+                j, a, b = fr["diff"]
+                return (f"{sig}: after factors {hist} the transform does not behave like a freshly constructed one "
+                        f"scaled by {f!r} only (same generator seed, same input): call {j} recorded/returned "
+                        f"{a[:300]} instead of {b[:300]}: the result depends on earlier factors")
     for i, a in enumerate(steps):
         for j, b in enumerate(steps):
             if i < j and a["f"] == b["f"]:
@@ -897,15 +1274,49 @@ def oracle_scale(case, obs):
     return None
 
 
+def oracle_mag(m):
+    """one call of a MagnitudeSampler user must sample its magnitude from the SCALED parameters, by the rule fixed at
+    construction: std 0 -> the constant magnitude; std inf -> uniform(min, magnitude); otherwise
+    clip(magnitude + normal(0, std), min, max)"""
+    for calls, got in zip(m["calls"], m["ctx"]):
+        scal = [c for c in calls if c[3] is not None]
+        arr = [c for c in calls if c[3] is None]
+        if m["mode"] == "const":
+            if scal:
+                return f"{m['cls']} constructed with magnitude_std = 0 drew {scal} for its magnitude"
+            want = m["mag"]
+        elif m["mode"] == "uniform":
+            if len(scal) != 1 or scal[0][:3] != ["uniform", m["min"], m["mag"]]:
+                return (f"{m['cls']} constructed with magnitude_std = inf must draw uniform({m['min']!r}, "
+                        f"{m['mag']!r}) once per call, drew {scal}")
+            want = scal[0][3]
+        elif (m["std"] == 0.0 or m["min"] == m["max"]) and not scal:
+            want = min(max(m["mag"], m["min"]), m["max"])      # degenerate: drawing nothing gives the same value
+        else:
+            if len(scal) != 1 or scal[0][:3] != ["normal", 0.0, m["std"]]:
+                return (f"{m['cls']} constructed with a finite non-zero magnitude_std must draw normal(0, "
+                        f"{m['std']!r}) once per call (scaled parameters: magnitude {m['mag']!r} in [{m['min']!r}, "
+                        f"{m['max']!r}]), drew {scal}")
+            want = min(max(m["mag"] + scal[0][3], m["min"]), m["max"])
+        if m["ctx_key"] is not None and got != want:
+            return f"{m['cls']} reported magnitude {got!r} in ctx, the scaled sampler and its draw give {want!r}"
+        if "noise_std" in m:
+            if len(arr) != 1 or arr[0][:3] != ["normal", 0.0, want * m["noise_std"]]:
+                return (f"{m['cls']} must draw its noise from normal(0, magnitude * std = {want * m['noise_std']!r}), "
+                        f"drew {[c[:3] for c in arr]}")
+    return None
+
+
 def oracle_sched(case, obs):
     W, B = case["W"], case["B"]
     sig = f"KDScheduledTransform[{spec_sig(case['inner'])}] W={W} B={B} init={case['init']}"
+    exp_nb = expected_n_batches(case["init"], B)
+    if "n_batches" in obs and (obs["n_batches"] != exp_nb or obs["n_batches"] != obs.get("nb_torch", exp_nb)):
+        return (f"{sig}: n_batches = {obs['n_batches']}, the announced training length means {exp_nb} batches "
+                f"(counted with torch's DistributedSampler / BatchSampler: {obs.get('nb_torch')})")
     for k in ("init_error", "loader_error", "call_error", "values_error"):
         if k in obs:
             return f"{sig}: {k}: {obs[k]}"
-    exp_nb = expected_n_batches(case["init"], B)
-    if obs["n_batches"] != exp_nb:
-        return f"{sig}: n_batches = {obs['n_batches']}, the announced training length means {exp_nb} batches"
     vals = obs["values"]
     if len(obs["samples"]) != case["n"]:
         return f"{sig}: {len(obs['samples'])} samples observed, {case['n']} expected"
@@ -923,6 +1334,14 @@ def oracle_sched(case, obs):
                 if not _close(v, vr):
                     return (f"{sig}: sample {s['i']} of global batch {b}: wrapped {name} = {v!r}, scaling the "
                             f"constructed transform by the schedule value {vals[b]!r} gives {vr!r}")
+        # independent of scale_strength itself: value 0 = weakest setting, value 1 = as constructed
+        for (name, v, ident), (_, v0, _) in zip(s["bounds"], obs["init_obs"]["bounds"]):
+            if vals[b] == 0.0 and not _close(v, ident):
+                return (f"{sig}: sample {s['i']} of global batch {b} reports strength 0.0 but is transformed with "
+                        f"{name} = {v!r} (weakest setting {ident!r})")
+            if vals[b] == 1.0 and not _close(v, v0):
+                return (f"{sig}: sample {s['i']} of global batch {b} reports strength 1.0 but is transformed with "
+                        f"{name} = {v!r} (constructed {v0!r})")
     return None
 
 
@@ -999,15 +1418,16 @@ def _solarize_ints(t, out):
 
 
 def _trunc_safe(tree0, factors):
-    """False when int(256 - (256 - og) * f) is decided by binary64 rounding (exact value within 1e-9 of an integer it
-    does not hit): such a case is compared by the Python oracle only"""
+    """False when int(256 - (256 - og) * f) may be decided by binary64 rounding (exact value within 2^-43 of an integer
+    it does not hit; the two rounded operations are each off by at most half an ulp of a number below 512 = 2^-45):
+    such a case is compared by the Python oracle only"""
     ogs = []
     _solarize_ints(tree0, ogs)
     for og in ogs:
         for f in factors:
             v = 256 - (256 - og) * Fraction(f)
             d = abs(v - round(v))
-            if 0 < d < Fraction(1, 10 ** 9):
+            if 0 < d < Fraction(1, 2 ** 43):
                 return False
     return True
 
@@ -1055,15 +1475,23 @@ def coq_case(case, obs):
 # evidence
 # ---------------------------------------------------------------------------
 def spec_sig(spec):
-    if spec["c"] == "KDComposeTransform":
-        return "[" + ",".join(spec_sig(k) for k in spec["k"]) + "]"
+    if spec["c"] in CONTAINERS:
+        tag = {"KDComposeTransform": "", "KDTransformChoice": "Choice", "KDRandomApply": "RandomApply",
+               "PatchwiseTransform": "Patchwise"}[spec["c"]]
+        return tag + "[" + ",".join(spec_sig(k) for k in spec["k"]) + "]"
     if spec["c"] == "preset":
         return spec["name"]
     return spec["c"]
 
 
+def _containers(spec):
+    if spec["c"] in CONTAINERS:
+        return [spec["c"]] + [x for k in spec["k"] for x in _containers(k)]
+    return []
+
+
 def _leaves(spec):
-    if spec["c"] == "KDComposeTransform":
+    if spec["c"] in CONTAINERS:
         return [x for k in spec["k"] for x in _leaves(k)]
     return [spec["c"]]
 
@@ -1074,6 +1502,8 @@ def features(case, obs):
     if kind == "scale":
         for c in sorted(set(_leaves(case["spec"]))):
             yield "class=" + c
+        for c in sorted(set(_containers(case["spec"]))):
+            yield "container=" + c
         yield "factors=%d" % len(case["factors"])
         fs = case["factors"]
         yield "has0=%s" % (0.0 in fs)
@@ -1085,15 +1515,35 @@ def features(case, obs):
             yield "uniform_spied"
         if _tree_ok(obs.get("tree0")) and not _trunc_safe(obs["tree0"], fs):
             yield "trunc_decided_by_rounding"
+    elif kind == "translator_selftest":
+        yield "translator_refused=%d" % sum(1 for r in obs.get("selftest", []) if not r[2])
+    elif kind == "multi_iter":
+        yield "multi_iter:" + case["regime"]
+        yield "W=%d" % case["W"]
     elif kind == "sched":
         yield "W=%d" % case["W"]
         yield "B=%d" % case["B"]
-        yield "init=" + sorted(case["init"])[0]
+        init = case["init"]
+        mode = "epochs" if "epochs" in init else "updates" if "updates" in init else "samples"
+        yield "init=" + mode
+        if mode == "epochs":
+            per = init["dataset_len"] // init["world_size"]
+            yield "epochs:world=%d" % init["world_size"]
+            yield "epochs:drop_last=%s" % init["drop_last"]
+            yield "epochs:per_rank_divisible_by_B=%s" % (per % case["B"] == 0)
+            yield "epochs:len_divisible_by_world=%s" % (init["dataset_len"] % init["world_size"] == 0)
+            yield "epochs:n=%d" % min(init["epochs"], 3)
+        if mode == "samples":
+            yield "samples:divisible_by_B=%s" % (init["samples"] % case["B"] == 0)
         yield "loader=%s" % case["loader"]
         yield "wrap=%s" % case["wrap"]
         yield "schedule=" + (type(case["schedule"]).__name__ if not isinstance(case["schedule"], dict)
                              else case["schedule"]["kind"])
         yield "partial_run=%s" % (case["n"] < obs.get("n_batches", 0) * case["B"])
+
+
+def json_key(d):
+    return tuple(sorted((k, v) for k, v in d.items()))
 
 
 def nontrivial_key(case, obs):
@@ -1106,9 +1556,11 @@ def nontrivial_key(case, obs):
             return None
         pat = tuple("0" if f == 0 else "1" if f == 1 else "m" for f in case["factors"])
         return ("scale", spec_sig(case["spec"]), pat, tuple(round(f, 6) for f in case["factors"]))
+    if kind == "multi_iter":
+        return ("multi_iter", case["regime"], case["W"], case["B"], case["bpe"], case["epochs"])
     if kind == "sched":
         if not obs.get("samples") or (case["W"] < 2 and len(obs["samples"]) <= case["B"]):
             return None
-        return ("sched", case["W"], case["B"], sorted(case["init"])[0], spec_sig(case["inner"]), case["wrap"],
+        return ("sched", case["W"], case["B"], json_key(case["init"]), spec_sig(case["inner"]), case["wrap"],
                 case["loader"], case["n"])
     return None
